@@ -156,6 +156,15 @@ _orig_call_method = _MC.call_method
 def call_method(ex, recv, name, args, kwargs, node=None):
     if isinstance(recv, str) and name == 'format' and not all(ex.is_conc(a) for a in args):
         return _opaque(recv.split('{')[0])  # literal text before the first replacement field
+    if isinstance(recv, str) and name == 'join' and len(args) == 1 and not kwargs and not isinstance(args[0], (str, bytes, list, tuple)):
+        # str.join over a generator expression / list object with a concrete spine: the items are produced first
+        # (CPython does the same), then joined when they are all concrete strings, else the result is an opaque string
+        items = ex.concrete_iter(args[0])
+        if items is not None:
+            if all(type(x) is str for x in items):
+                return recv.join(items)
+            if all(type(x) is str or isinstance(x, OpaqueStr) for x in items):
+                return _opaque('')
     return _orig_call_method(ex, recv, name, args, kwargs, node)
 
 
